@@ -531,6 +531,9 @@ func mergePrepare(name string, cmd redcon.Command) (redcon.Command, error) {
 	if len(cmd.Args) < 2 {
 		return cmd, fmt.Errorf("ERR wrong number of arguments for '%s' command", string(cmd.Args[0]))
 	}
+	if name == "plset" && len(cmd.Args)%2 == 0 { // fix d9960d0: a key without value is refused
+		return cmd, fmt.Errorf("ERR wrong number of arguments for '%s' command", string(cmd.Args[0]))
+	}
 	orig := cmd.Args[1:]
 	keys := orig
 	var vals [][]byte
